@@ -271,7 +271,7 @@ pub fn run(tier: Tier) -> i32 {
         v.extend(gen::family_matrix(1).into_iter().step_by(23));
         v
     } else {
-        gen::universe(0)
+        gen::universe_quick()
     };
     let doc_cap = if th { 200 } else { 60 };
     let parts: Vec<Stats> = specs.par_iter().map(|sp| check_spec(sp, level.min(1), doc_cap)).collect();
